@@ -47,6 +47,8 @@ Fails(e) ==
       [] e.op \in {"sqrt", "cbrt", "nth_root"} -> FailsRoot(S(e, 1), RootN(e))
       [] e.op \in {"next_multiple_of", "prev_multiple_of"} -> S(e, 2).s = 0
       [] e.op = "dec" /\ IsUTy(e) -> S(e, 1).s = 0
+      [] e.op = "gen_biguint_below" -> S(e, 1).s = 0
+      [] e.op = "gen_range" -> RangeWidth(S(e, 1), S(e, 2), e.incl).s <= 0
       [] e.op = "modpow" -> FailsModPow(S(e, 2), S(e, 3))
       [] e.op = "modinv" -> S(e, 2).s = 0
       [] e.op \in {"shl", "shr"} -> e.sc[1].neg /\ e.sc[1].m # <<>>
@@ -147,6 +149,18 @@ Rule(e) ==
             IF e.ty = "I" /\ t.sign \notin {-1, 0, 1} THEN ~e.ret.some
             ELSE e.ret.some /\ PostIs1(e, OfBytesLE(IF e.ty = "I" THEN t.sign ELSE 1, t.elems))
       [] e.op = "serde_roundtrip" -> PostIs1(e, S(e, 1))
+      [] e.op = "gen_biguint" ->
+            LET W == WordsOf(e.ret.words)  c == GenBits(W, 1, e.n) IN
+            c.ok /\ c.k = Len(W) + 1 /\ PostIs1(e, ZNat(c.v))
+      [] e.op = "gen_bigint" ->
+            LET W == WordsOf(e.ret.words)  c == GenBigInt(W, 1, e.n) IN
+            c.ok /\ c.k = Len(W) + 1 /\ PostIs1(e, c.v)
+      [] e.op = "gen_biguint_below" ->
+            LET W == WordsOf(e.ret.words)  c == GenBelow(W, 1, S(e, 1).d) IN
+            c.ok /\ c.k = Len(W) + 1 /\ PostIs1(e, ZNat(c.v))
+      [] e.op = "gen_range" ->
+            LET W == WordsOf(e.ret.words)  c == GenBelow(W, 1, RangeWidth(S(e, 1), S(e, 2), e.incl).d) IN
+            c.ok /\ c.k = Len(W) + 1 /\ PostIs1(e, ZAdd(S(e, 1), ZNat(c.v)))
       [] e.op = "to_str_radix" -> IsTextOf(e.ret.text, S(e, 1), e.radix, FALSE)
       [] e.op = "fmt" -> e.ret.text = FormatR(S(e, 1), e.spec)
       [] e.op = "to_radix_le" -> IsDigitsOf(Reverse(e.ret.bytes), S(e, 1).d, e.radix) /\ (e.ty = "I" => e.ret.n = S(e, 1).s)
